@@ -140,7 +140,6 @@ fn terminal_bin<'a, M: Manager<Terminal = T>, T: NumberBase, const OP: u8>(
                 let val = tf.borrow().sub(tg.borrow());
                 Done(m.get_terminal(val)?)
             }
-            (Terminal(t), _) if t.borrow().is_zero() => Done(m.clone_edge(g)),
             (_, Terminal(t)) if t.borrow().is_zero() => Done(m.clone_edge(f)),
             (Terminal(t), _) | (_, Terminal(t)) if t.borrow().is_nan() => {
                 Done(m.get_terminal(T::nan())?)
